@@ -6,6 +6,7 @@ import Proofs.GrepPlainB
 import Proofs.GrepPlainC
 import Proofs.GrepPlainD
 import Proofs.GrepEmit
+import Proofs.RipGrepJson
 /-!
 C16 — grep output keeps every hit's path, line number and code.
 
@@ -321,5 +322,102 @@ theorem plain_unnumbered_blank_witness :
     parsePlain (fmtPlain { path := "v1.2-rc/my file.rs".toList, kind := .match_, digits := none, code := "x".toList }) =
       some { path := "v1.2".toList, kind := .context, digits := none, code := "rc/my file.rs:x".toList } := by
   decide
+
+/-! ## rg --json: which JSON values are records (session 4, T10)
+
+`RipGrepJson.parseLine` (DeltaModel/RipGrepJson.lean) is `ripgrep_json::parse_line` from the decoded JSON
+value on; what it accepts is decided by the record structs regenerated from the source
+(`Generated.RipGrepJsonShape.root`: field names, `rename`, `Option`, `Vec`, `default`,
+`deny_unknown_fields`, the `LineType` variants, the metadata words, the members `parse_line` reads).
+`rg --json` is an open format: a consumer must ignore members it does not know. -/
+
+section RgJsonRecords
+open RipGrepJson Generated.RipGrepJsonShape
+
+/-- None of the record structs (`RipGrepLine`, `RipGrepLineData`, `RipGrepLineText`,
+`RipGrepLineSubmatch`) denies members it does not list. -/
+theorem record_structs_ignore_unknown_members : tyLenient root = true := by decide
+
+/-- Two JSON values that differ only in members the record structs do not name — added, removed or
+changed, at any of the four levels (record, data, path / lines / match text object, submatch), inside
+every submatch — get the same answer from `parse_line`: the same `GrepLine` (type, path, line number,
+line of code, submatches) when one of them is a record, swallowed alike when metadata, left alike to
+the other handlers otherwise. No bound on the values. -/
+theorem record_with_extra_members_accepted (v v' : JVal) (h : AgreeOnKnown root v v') :
+    parseLine v' = parseLine v :=
+  parseLine_agree record_structs_ignore_unknown_members h
+
+/-- The literal form: a member whose name the struct does not have, with any value, put anywhere
+among the members of an object read as that struct (at any lenient struct type, hence at each of the
+four levels), does not change what the object is read as. -/
+theorem new_member_ignored (n : String) (fs : Fields) (hl : fieldsLenient fs = true)
+    (k : String) (x : JVal) (hk : hasJson fs k = false) (ms₁ ms₂ : List (String × JVal)) :
+    decode (.struct n false fs) (.obj (ms₁ ++ (k, x) :: ms₂)) = decode (.struct n false fs) (.obj (ms₁ ++ ms₂)) :=
+  decode_agree (.struct n false fs) _ _ (by simp [tyLenient, hl])
+    (by simp only [AgreeOnKnown]; exact agreeMembers_insert fs k x ms₁ ms₂ hk)
+
+/-- `lenient` is needed: a struct with `deny_unknown_fields` rejects the object with the additional
+member (what ripgrep's `"replacement"` next to `"match"` would meet), which the same struct without
+the attribute reads. -/
+theorem strict_struct_rejects_new_member :
+    decode (.struct "T" true (.cons "text" "text" false .string .nil))
+        (.obj [("text", .str "let"), ("replacement", .obj [("text", .str "VAR")])]) = none ∧
+    (decode (.struct "T" false (.cons "text" "text" false .string .nil))
+        (.obj [("text", .str "let"), ("replacement", .obj [("text", .str "VAR")])])).isSome = true := by
+  decide
+
+/-- An `rg --json` match record; `e1 … e4`: further members of the record, of `data`, of the path text
+object and of the submatch. -/
+def exRecord (e1 e2 e3 e4 : List (String × JVal)) : JVal :=
+  .obj (e1 ++ [("type", .str "match"),
+    ("data", .obj ([("path", .obj ([("text", .str "src/a.rs")] ++ e3)), ("lines", .obj [("text", .str "let x = 1;\n")]),
+      ("line_number", .nat 3), ("absolute_offset", .nat 0)] ++ e2 ++
+      [("submatches", .arr [.obj ([("match", .obj [("text", .str "let")])] ++ e4 ++ [("start", .nat 0), ("end", .nat 3)])])]))])
+
+example : parseLine (exRecord [] [] [] []) =
+    some { gtype := .ripgrep, kind := .match_, path := "src/a.rs".toList, num := some 3,
+           code := "let x = 1;".toList, subs := some [(0, 3)] } := by decide
+
+/-- The hypothesis is met by a record with a new member at each of the four levels (the last one is
+what `rg --json -r VAR` adds). -/
+example : AgreeOnKnown root (exRecord [] [] [] [])
+    (exRecord [("version", .nat 2)] [("binary_offset", .null)] [("lossy", .bool false)]
+      [("replacement", .obj [("text", .str "VAR")])]) := by
+  simp [AgreeOnKnown, AgreeMembers, AgreeSeq, Pointwise, valuesOf, others, root, exRecord]
+
+example : parseLine (exRecord [("version", .nat 2)] [("binary_offset", .null)] [("lossy", .bool false)]
+      [("replacement", .obj [("text", .str "VAR")])]) = parseLine (exRecord [] [] [] []) := by decide
+
+/-- What a reader sees of a stream does not depend on such members: replace any record of the stream
+(one that `parse_line` answers) by one that differs from it only in members the structs do not name —
+the rendered rows (path headers, line numbers, code, highlighted sections, in either output style) are
+the same. -/
+theorem rendered_hit_independent_of_extra_members (cfg : Cfg) (pre post : List Line) (v v' : JVal)
+    (raw raw' : Bytes) (h : AgreeOnKnown root v v') (hacc : parseLine v ≠ none) :
+    emit cfg (pre ++ lineOf v' raw' :: post) = emit cfg (pre ++ lineOf v raw :: post) := by
+  rw [lineOf_agree (record_with_extra_members_accepted v v' h) raw raw' hacc]
+
+example : (emit { outputType := none, tabWidth := 4, headerAsHunkHeader := true }
+      [lineOf (exRecord [] [] [] [("replacement", .obj [("text", .str "VAR")])]) []]).toOption.map attach =
+    some [(some "src/a.rs".toList, some 3, utf8 "let x = 1;")] := by decide
+
+/-- `begin`, `end`, `summary`: an object whose (last) `"type"` member is one of these words is swallowed
+(`LineType::Ignore`, nothing written), whatever other members it has. -/
+theorem metadata_records_swallowed (ms : List (String × JVal)) (w : String)
+    (h : (valuesOf metaKey ms).getLast? = some (.str w)) (hw : metaWords.contains w = true) :
+    parseLine (.obj ms) = some { gtype := .ripgrep, kind := .ignore, path := [], num := none, code := [], subs := none } := by
+  rw [meta_swallowed ms w h hw]; decide
+
+example : parseLine (.obj [("data", .obj [("path", .obj [("text", .str "src/a.rs")])]), ("type", .str "begin")]) =
+    some { gtype := .ripgrep, kind := .ignore, path := [], num := none, code := [], subs := none } := by decide
+
+/-- `lines.bytes` instead of `lines.text` (what ripgrep writes for a line that is not valid UTF-8): not a
+record for delta — the line is left to the other handlers, i.e. it goes through as raw JSON text. -/
+theorem bytes_record_not_recognised :
+    parseLine (.obj [("type", .str "match"), ("data", .obj [("path", .obj [("text", .str "a.bin")]),
+      ("lines", .obj [("bytes", .str "/w==")]), ("line_number", .nat 1), ("absolute_offset", .nat 0),
+      ("submatches", .arr [])])]) = none := by decide
+
+end RgJsonRecords
 
 end C16
